@@ -23,7 +23,7 @@ BAG = {
     # a script (the first two inputs are joins anyway): a callee that also subscribes is called, stops reading, its queue fills, ...
     "stallseq": '<<"join","join","reg","sub","call","stall","pub","pub","ckill","call","msess","adv","resume","yield","pub","cancel","adv","leave">>',
     # a caller stops reading, its callee yields (held back in the retry loop), ...
-    "retryseq": '<<"join","join","reg","call","stallc","yield","pub","msess","adv","resume","call","yield","leave">>',
+    "retryseq": '<<"join","join","reg","call","stallc","yield","yield","yield","pub","msess","adv","resume","call","yield","leave">>',
     "killx": '<<"join","join","sub","wsub","tst","tst","kill","kill","kill","leave","msess","pub">>',
     "stallburst": '<<"join","join","sub","sub","sub","stall","bpub","bpub","bpub","resume","pub","leave">>',
     "burst": '<<"join","join","sub","sub","sub","reg","pub","bpub","bpub","bpub","leave","bmix">>',
@@ -114,11 +114,11 @@ PROPS = {
     "C11": dict(family="core", realms=True,
                 mc=dict(kinds=["join", "sub", "pub", "reg", "call", "yield", "leave", "kill"], inv=["TablesOK", "C05_NoTrace"],
                         quick=dict(steps=4, nsess=2), thorough=dict(steps=5, nsess=3)),
-                gen=[dict(bag="mixed", depth=14, quick=160, thorough=2400),
-                     dict(bag="kill", depth=14, quick=80, thorough=1200),
-                     dict(bag="killx", depth=12, quick=160, thorough=2400),
-                     dict(bag="meta", depth=14, quick=80, thorough=1200),
-                     dict(bag="retryseq", depth=12, quick=90, thorough=1500, mode="stall", scripted=True)],
+                gen=[dict(bag="mixed", depth=14, quick=30, thorough=800),
+                     dict(bag="kill", depth=14, quick=20, thorough=400),
+                     dict(bag="killx", depth=12, quick=35, thorough=800),
+                     dict(bag="meta", depth=14, quick=20, thorough=400),
+                     dict(bag="retryseq", depth=14, quick=30, thorough=500, mode="stall", scripted=True)],
                 classes=["sess", "pubsub", "meta", "metaapi", "rpcreply", "rpcroute", "rpcintr", "snap"]),
     "C12": dict(family="core",
                 mc=dict(kinds=["join", "sub", "pub", "reg", "call", "leave", "disc"],
@@ -347,7 +347,7 @@ def combine_realms(scns, seed, prop):
             if st.get("r") == victim and st["op"] == "yield" and stalled:
                 cands.append(si + 1)
         if cands and rnd.random() < 0.8:
-            pos = rnd.choice(cands)
+            pos = max(cands) if rnd.random() < 0.7 else rnd.choice(cands)
         # ... and while somebody joins another realm, who must be served without delay
         if rnd.random() < 0.6:
             other = rnd.choice([r for r in range(k) if r != victim])
